@@ -1070,6 +1070,7 @@ func TestHarness(t *testing.T) {
 		rs("C06 random history", func() profile {
 			return profile{window: 10, queue: 100, clients: 1 + r.Intn(5), steps: 30 + r.Intn(40), wSub: 6, wUnsub: 3, wPub: 10, wAck: 7, wPing: 1, qos: all, multiFilter: true}
 		})
+		sc("C06 concurrent storm", func(r *gen.Rng, o *out.W) { concStorm(r, o, "C06") })
 	case "C07":
 		sc("C07 publisher script", c07Script)
 		runCase(t, o, "C07 publisher queue full", func() { c07QueueFull(r, o) })
